@@ -84,3 +84,84 @@ func H_C18_trans() {
 		assert(a.Higher(c) == b.Higher(c), "equal-congruent-higher")
 	}
 }
+
+// H_C18_gates: feature gating is monotone in the server version. The two gate
+// forms the library uses are `Higher(v,G) || Equal(v,G)` (newDcp: expiry
+// opcode from 6.5.0, change streams from 7.2.0) and `Lower(v,G)` (NewStream:
+// serial closing below 5.5.0). For every v <= w: gate(v) => gate(w).
+func H_C18_gates() {
+	v, w := vVersion("v"), vVersion("w")
+	assume(vLexLess(v, w) || vTupleEq(v, w))
+	gates := []*Version{SrvVer550, SrvVer650, SrvVer720}
+	for _, g := range gates {
+		onV := v.Higher(g) || v.Equal(g)
+		onW := w.Higher(g) || w.Equal(g)
+		if onV {
+			cover("gate-on")
+			assert(onW, "a feature enabled at version v stays enabled at every later version")
+		}
+		assert(onV == !v.Lower(g), "the below-gate test is the exact complement of the at-or-above test")
+		if w.Lower(g) {
+			cover("gate-off")
+			assert(v.Lower(g), "a version below a gate has every earlier version below it too")
+		}
+	}
+	assert(SrvVer550.Major == 5 && SrvVer550.Minor == 5 && SrvVer650.Major == 6 && SrvVer650.Minor == 5 && SrvVer720.Major == 7 && SrvVer720.Minor == 2, "gate constants are 5.5.0 / 6.5.0 / 7.2.0")
+}
+
+func vDigits(tag string, n int) (string, int) {
+	s := nondetStr(tag, n)
+	v := 0
+	for i := 0; i < n; i++ {
+		assume(s[i] >= '0' && s[i] <= '9')
+		v = v*10 + int(s[i]-'0')
+	}
+	return s, v
+}
+
+// H_C18_parse: "M.m.p-build-edition" with 1..2 arbitrary digits per component
+// parses to the tuple it denotes; shorter well-formed prefixes too.
+func H_C18_parse() {
+	setMerge(true)
+	ms, mv := vDigits("major", concretize(nondetInt("lm"), 1, 2))
+	ns, nv := vDigits("minor", concretize(nondetInt("ln"), 1, 2))
+	ps, pv := vDigits("patch", 1)
+	bs, bv := vDigits("build", concretize(nondetInt("lb"), 1, 2))
+	var s string
+	var want Version
+	switch choose("shape", 5) {
+	case 0:
+		s, want = ms, Version{Major: mv}
+	case 1:
+		s, want = ms+"."+ns, Version{Major: mv, Minor: nv}
+	case 2:
+		s, want = ms+"."+ns+"."+ps, Version{Major: mv, Minor: nv, Patch: pv}
+	case 3:
+		s, want = ms+"."+ns+"."+ps+"-"+bs, Version{Major: mv, Minor: nv, Patch: pv, Build: bv}
+	default:
+		s, want = ms+"."+ns+"."+ps+"-"+bs+"-enterprise", Version{Major: mv, Minor: nv, Patch: pv, Build: bv}
+	}
+	got, err := nodeVersionFromString(s)
+	assert(err == nil && got != nil, "a well-formed version string parses")
+	assert(got.Major == want.Major && got.Minor == want.Minor && got.Patch == want.Patch && got.Build == want.Build, "the parsed tuple is the one the string denotes")
+	cover("parsed")
+}
+
+// H_C18_malformed: arbitrary short byte strings never crash the parser, and a
+// non-numeric major is an error.
+func H_C18_malformed() {
+	setMerge(true)
+	n := concretize(nondetInt("len"), 0, 4)
+	s := nondetStr("s", n)
+	for i := 0; i < n; i++ {
+		assume(s[i] < 0x80)
+	}
+	p, _ := expectPanic(func() {
+		v, err := nodeVersionFromString(s)
+		if n > 0 && (s[0] < '0' || s[0] > '9') && s[0] != '+' && s[0] != '-' {
+			cover("bad-major")
+			assert(err != nil && v == nil, "a non-numeric major version is refused")
+		}
+	})
+	assert(!p, "the version parser never crashes on malformed input")
+}
